@@ -168,6 +168,85 @@ def c_responder_credit(n0: int, n1: int, n2: int, early: bool, split: bool) -> s
     return pick_dev(devs, ALLOWED)
 
 
+NG = part('ng', 6)               # number of REQUEST_N frames in c_grant_sequence
+BURST = part('burst', None)      # optional partition of c_grant_sequence's burst flag
+
+
+def c_grant_sequence(n0: int, g: int, burst: bool, early: bool) -> str:
+    """
+    Longer REQUEST_N sequences: a responder (ROLE) over the library source SRC with M elements gets initial
+    request-n n0 and then NG REQUEST_N frames of g each (n0, g 31-bit symbolic) - `burst`: all of them in one read
+    (pending together before the publisher runs again), otherwise one at a time with a quiescent point after each;
+    `early`: the burst arrives in the same read as the request.  At every quiescent point
+    #PAYLOAD(next) == min(M, credit so far); no ERROR frame; a back-pressure-aware factory is asked for exactly the
+    credited amounts in order.
+
+    pre: 1 <= n0 <= 0x7FFFFFFF and 1 <= g <= 0x7FFFFFFF and (BURST is None or burst == BURST)
+    post: _ in ALLOWED
+    """
+    m = M
+    asked = []
+
+    class H(BaseRequestHandler):
+        async def request_stream(self, payload):
+            return _publisher(SRC, m, COL, asked)
+
+        async def request_channel(self, payload):
+            return _publisher(SRC, m, COL, asked), Rec()
+
+    burst = concb(burst)
+    early = concb(early)
+    loop = new_loop()
+    with loop:
+        t = SimTransport(loop)
+        s = RSocketServer(t, handler_factory=H)
+        loop.run_ready()
+        if ROLE == 'stream':
+            t.feed_wire(to_request_stream_frame(1, Payload(b'q'), initial_request_n=n0))
+        else:
+            t.feed_wire(to_request_channel_frame(1, Payload(b'q'), initial_request_n=n0))
+        devs = []
+        credit = n0
+
+        def check(where):
+            got = len(_nexts(t, 1))
+            want = min(m, credit)
+            if got > credit:
+                devs.append('more-elements-than-credit')
+            elif got > want:
+                devs.append('more-elements-than-source-holds')
+            elif got < want:
+                devs.append('element-withheld-despite-credit:' + where)
+
+        if not (burst and early):
+            loop.run_ready()
+            check('after-request')
+        for i in range(NG):
+            t.feed_wire(to_request_n_frame(1, g))
+            credit += g
+            if not burst:
+                loop.run_ready()
+                check('after-request-n-%d' % (i + 1))
+        loop.run_ready()
+        check('after-all-request-n')
+        datas = [bytes(f.data) for f in _nexts(t, 1)]
+        if datas != [bytes([65 + i]) for i in range(len(datas))]:
+            devs.append('elements-out-of-order-or-duplicated')
+        if any(isinstance(f, ErrorFrame) for f in t.frames()):
+            devs.append('unexpected-ERROR-frame')
+        if SRC in ('rx4bp', 'rx3bp'):
+            grants = [n0] + [g] * NG
+            if asked != grants[:len(asked)]:
+                devs.append('backpressure-factory-not-asked-for-exactly-the-credited-amounts')
+            elif len(asked) < len(grants) and sum(asked) <= m:
+                devs.append('credit-not-forwarded-to-backpressure-factory')
+        stats.note(len(datas) >= 1, {'src': SRC, 'role': ROLE, 'm': m, 'ng': NG, 'emitted': len(datas), 'burst': burst})
+        d = generic_dev(loop, s)
+        if d:
+            devs.append(d)
+    return pick_dev(devs, ALLOWED)
+
+
 def c_channel_requester_credit(n1: int, n2: int, early: bool) -> str:
     """
     The requester side of a channel (client) with the library source SRC as its outbound publisher: it sends the
